@@ -289,8 +289,9 @@ def exec_ops(suite, ops, rundir, r=None):
     ol = open(ops, errors="replace").read().splitlines()
     if len(il) != len(ml):
         r["error"] = "line count differs impl=%d model=%d" % (len(il), len(ml))
-    if suite.startswith("e2e"):
+    if suite.startswith("e2e") or suite.startswith("segfault"):
         # the model side is the SPECIFICATION's answer: compare with the latitude the property grants
+        # (segfault*: the answers on the UNDAMAGED files; the fault property itself arrives as PropFails)
         import e2ecmp
         agreed = 0
         for i, (a, b) in enumerate(zip(il, ml)):
